@@ -169,6 +169,8 @@ def generate(prop, seed, tier):
                     cop["given"] = cop["given"][: S.int(1, 3)]
                     cop["tile"] = S.pick([1500, 4000])
                     cop["n"] = S.pick([1, 2])
+                if S.chance(0.25):
+                    cop["given_type"] = "int"
                 ops.insert(S.int(0, len(ops)), cop)
     if not any(o["op"] == "draw" and o["n"] >= 2000 for o in ops):
         ops.append({"op": "draw", "slot": 0, "n": 20000, "rs": {"kind": "int", "seed": S.sub("last")}})
@@ -323,7 +325,10 @@ def check_shape_support(run, sl, obj, x, n):
 
 
 def _given_of(op):
-    g = np.array(op["given"], dtype=float)
+    if op.get("given_type") == "int":
+        g = np.array([max(1, int(round(v))) for v in op["given"]], dtype=int)  # whole numbers, integer-typed
+    else:
+        g = np.array(op["given"], dtype=float)
     return np.tile(g, op["tile"]) if op.get("tile") else g
 
 
